@@ -6,7 +6,7 @@
 From Coq Require Import ZArith List Bool.
 From LV Require Import Enc.EncBase Enc.Subrect Enc.SubrectProofs Enc.Raw Enc.RRE Enc.Hextile Enc.Zlib Enc.ZRLE
      Enc.Update Enc.RawRREProofs Enc.HextileProofs Enc.SplitProofs Enc.StreamProofs
-     Enc.ZRLEProofs1 Enc.ZRLEProofs4 Enc.ZRLEFormatProofs Enc.UpdateProofs Enc.Tight Enc.TightProofs Enc.TightSplit Enc.TightSplitProofs Enc.TightSessionProofs Enc.TightSplitTotal Enc.BytesProofs Enc.TotalProofs Enc.ZRLESendProofs Enc.Session Enc.SessionProofs
+     Enc.ZRLEProofs1 Enc.ZRLEProofs4 Enc.ZRLEFormatProofs Enc.UpdateProofs Enc.Tight Enc.TightProofs Enc.TightSplit Enc.TightSplitProofs Enc.TightSessionProofs Enc.TightUniform Enc.TightSessionFull Enc.TightSplitTotal Enc.BytesProofs Enc.TotalProofs Enc.ZRLESendProofs Enc.Session Enc.SessionProofs
      Dec.SpecPaint Dec.SpecRaw Dec.SpecRRE Dec.SpecHextile Dec.SpecZRLE Dec.SpecTight Dec.SpecUpdate Gen.Consts_C01.
 Import ListNotations.
 
@@ -177,47 +177,77 @@ Proof. exact tpix_rt_888. Qed.
 (* the decoder's TPIXEL flag is the SPECIFICATION's (spec_tpixel3): the parameters the server derives
    from the client format agree with it whenever the format has 32 bits per pixel and is true colour
    (or the repaired test, strict = true, is used) *)
-Theorem C01_tight_fmt_is_spec : forall strict sbypp bypp bpp depth be tc rmax gmax bmax rs gs bs level quality,
+Theorem C01_tight_fmt_is_spec : forall strict swapfix sbypp bypp bpp depth be tc rmax gmax bmax rs gs bs level quality,
   strict = true \/ (bpp = 32%Z /\ tc <> 0%Z) ->
-  tp_fmt (tight_params_of strict sbypp bypp bpp depth be tc rmax gmax bmax rs gs bs level quality) =
+  tp_fmt (tight_params_of strict swapfix sbypp bypp bpp depth be tc rmax gmax bmax rs gs bs level quality) =
   spec_tight_fmt bypp bpp depth be tc rmax gmax bmax rs gs bs.
 Proof. exact tp_fmt_is_spec. Qed.
 
 (* the unchanged test without the bpp / true-colour conditions (finding F7) *)
 Theorem C01_tight_pack24_narrow_refuted :
   exists g payload,
-    tight_subrect (tight_params_of false 1 1 8 24 0 1 255 255 255 0 0 0 1 (-1)) 1 1 g = Some (TPayload payload) /\
+    tight_subrect (tight_params_of false false 1 1 8 24 0 1 255 255 255 0 0 0 1 (-1)) 1 1 g = Some (TPayload payload) /\
     dec_tight (spec_tight_fmt 1 8 24 0 1 255 255 255 0 0 0) 1 1 payload = None.
 Proof. exact tight_pack24_narrow_refuted. Qed.
 
-(* Pack24 with a byte order different from the server's and unaligned shifts (finding F8) *)
+(* the repaired Pack24 (tp_swap = true: Swap32 when the byte orders differ, then the plain shifts - what /repo
+   HEAD has since 1f04fe7): EVERY placement of three 8-bit components at least 8 bits apart in the low 32 bits
+   is TPIXEL-faithful, aligned or not, either byte order *)
+Theorem C01_tight_tpixel_repaired : forall p r g b, tp_pack24 p = true -> tp_swap p = true ->
+  spaced (tp_rs p) (tp_gs p) (tp_bs p) \/ spaced (tp_rs p) (tp_bs p) (tp_gs p) \/ spaced (tp_gs p) (tp_rs p) (tp_bs p) \/
+  spaced (tp_gs p) (tp_bs p) (tp_rs p) \/ spaced (tp_bs p) (tp_rs p) (tp_gs p) \/ spaced (tp_bs p) (tp_gs p) (tp_rs p) ->
+  (0 <= r < 256)%Z -> (0 <= g < 256)%Z -> (0 <= b < 256)%Z ->
+  tpix_rt p (grid_pixel_of_value (tp_be p) 4 (r * 2 ^ tp_rs p + g * 2 ^ tp_gs p + b * 2 ^ tp_bs p)%Z).
+Proof. exact tpix_rt_repaired_any. Qed.
+
+Example C01_tight_tpixel_repaired_nonvacuous :
+  let p := mkTP 4 true true 4 12 20 1 false false true in
+  let pix := grid_pixel_of_value true 4 (1 * 2 ^ 4 + 2 * 2 ^ 12 + 3 * 2 ^ 20)%Z in
+  take_tpixel (tp_fmt p) (tpixel_bytes p pix) = Some (pix, []).
+Proof. vm_compute. reflexivity. Qed.
+
+(* regression witness: the OLD Pack24 formula (tp_swap = false, "24 - shift") with a byte order different from
+   the server's and unaligned shifts (finding F8, fixed by 1f04fe7) *)
 Theorem C01_tight_pack24_be_unaligned_refuted :
-  let p := mkTP 4 true true 4 12 20 1 false false in
+  let p := mkTP 4 true true 4 12 20 1 false false false in
   exists pix, pix = grid_pixel_of_value true 4 (1 * 2 ^ 4 + 2 * 2 ^ 12 + 3 * 2 ^ 20)%Z /\
               take_tpixel (tp_fmt p) (tpixel_bytes p pix) <> Some (pix, []).
 Proof. exact tight_pack24_be_unaligned_refuted. Qed.
 
-(* the function the driver runs.  The request is partitioned by the pieces (proved); every piece is sent as
-   rectangles that partition it and decode.  PARTIAL: that the area of a piece sent as fill rectangle is
-   uniformly coloured on the translated screen (solids_uniform) is a hypothesis, not proved - the
-   solid-area search runs on the server framebuffer sfb, which this theorem does not tie to scr *)
-Theorem C01_tight_session_partial :
-  forall strict sbypp bypp bpp depth be tc rmax gmax bmax rs gs bs level quality lastrect W H x y w h scr sfb rects,
-  let p := tight_params_of strict sbypp bypp bpp depth be tc rmax gmax bmax rs gs bs level quality in
-  wf_grid W H scr -> Forall (Forall (tpix_rt p)) scr -> conf_ok (tp_conf p) ->
+(* the solid-area search only returns areas of one colour (on the framebuffer it searched) *)
+Theorem C01_tight_split_uniform : forall sfb fuel x y w h ps,
+  tight_split fuel sfb x y w h = Some ps ->
+  forall a b c d, In (Solid a b c d) ps ->
+  exists col, forall i j v, a <= i < a + c -> b <= j < b + d -> gget sfb i j = Some v -> v = col.
+Proof. exact tight_split_uni. Qed.
+
+(* the function the driver runs.  scr, the screen the encoder sees, is the pixel-wise translation (any
+   function tr of the pixel) of the server framebuffer sfb the solid-area search runs on.  The request is
+   partitioned by the pieces; every piece - fill rectangles of the LastRect path included - is sent as
+   rectangles that partition it and that the specification's decoder turns into crop scr. *)
+Theorem C01_tight_session :
+  forall strict swapfix sbypp bypp bpp depth be tc rmax gmax bmax rs gs bs level quality lastrect W H x y w h sfb (tr : Z -> Z) rects,
+  let p := tight_params_of strict swapfix sbypp bypp bpp depth be tc rmax gmax bmax rs gs bs level quality in
+  let scr := map (map tr) sfb in
+  wf_grid W H sfb -> Forall (Forall (tpix_rt p)) scr -> conf_ok (tp_conf p) ->
   x + w <= W -> y + h <= H -> 1 <= w -> 1 <= h ->
-  (forall pieces, tight_split (S (w * h)) sfb x y w h = Some pieces -> solids_uniform scr pieces) ->
-  send_tight_session strict sbypp bypp bpp depth be tc rmax gmax bmax rs gs bs level quality lastrect x y w h scr sfb = Ok rects ->
+  send_tight_session strict swapfix sbypp bypp bpp depth be tc rmax gmax bmax rs gs bs level quality lastrect x y w h scr sfb = Ok rects ->
   exists pieces groups, part_abs x y w h (geoms pieces) /\ Forall2 (piece_sent p scr) pieces groups /\ rects = concat groups.
-Proof. exact send_tight_session_ok. Qed.
+Proof. exact send_tight_session_full. Qed.
+
+(* non-vacuity: the LastRect path on a one-colour 80 x 64 area sends one fill rectangle *)
+Example C01_tight_session_nonvacuous :
+  send_tight_session true true 4 4 32 24 0 1 255 255 255 16 8 0 1 (-1) true 0 0 80 64
+    (map (map (fun v => v)) (mk_grid 80 64 5%Z)) (mk_grid 80 64 5%Z) = Ok [mkW 0 0 80 64 7 [128; 0; 0; 5]%Z].
+Proof. vm_compute. reflexivity. Qed.
 
 Theorem C01_tight_level0_refuted :
-  exists g payload, tight_subrect (mkTP 1 false false 0 0 0 0 false false) 1 2 g = Some (TPayload payload) /\
+  exists g payload, tight_subrect (mkTP 1 false false 0 0 0 0 false false false) 1 2 g = Some (TPayload payload) /\
     dec_tight (mkTF 1 false false 0 0 0) 1 2 payload = None.
 Proof. exact tight_level0_refuted. Qed.
 
 Example C01_tight_nonvacuous :
-  tight_subrect (mkTP 1 false false 0 0 0 1 false false) 8 4 [[5; 5; 7; 5; 5; 5; 5; 5]; [5; 5; 5; 5; 5; 5; 5; 5]; [5; 7; 7; 5; 5; 5; 5; 5]; [5; 5; 5; 5; 5; 5; 5; 7]]%Z =
+  tight_subrect (mkTP 1 false false 0 0 0 1 false false false) 8 4 [[5; 5; 7; 5; 5; 5; 5; 5]; [5; 5; 5; 5; 5; 5; 5; 5]; [5; 7; 7; 5; 5; 5; 5; 5]; [5; 5; 5; 5; 5; 5; 5; 7]]%Z =
   Some (TPayload [80; 1; 1; 5; 7; 32; 0; 96; 1]%Z).
 Proof. vm_compute. reflexivity. Qed.
 
